@@ -1,10 +1,38 @@
 (* compile_correct (C01, link 3): the code the writer emits for a tree, run by the interpreter,
    delivers exactly the reference semantics' priority-ordered result list.
 
-   PROVED SO FAR (see [supported] below for the exact constructor set):
-     - emit_length            : zlen (fst (emit c t a tbl)) = csize c t        (all constructors)
-     - compile_correct_partial: the main theorem, for [supported] trees
-   Writer configuration: cfg0 = {| capmap := None; quick := None |} (identity slot map, full code). *)
+   Writer configuration: cfg0 = {| capmap := None; quick := None |} (identity slot map, full code).
+
+   PROVED (all closed under the global context):
+     emit_length (CompileDefs)     zlen (fst (emit c t a tbl)) = csize c t, every constructor, every cfg
+     emit_tbl_ext (CompileDefs)    the string table only grows
+     compile_correct_partial       for every [supported] tree t, fuel <= MaxInt32 with sem e fuel t s = Ok res,
+                                   start state inside the text, group numbers inside capsize, text no longer
+                                   than MaxInt32, program string table containing the writer's table:
+                                   from the fragment's entry (any base track T with a valid frame on top, any
+                                   grouping stack S, crawl C, capture arrays M related to caps s) the machine
+                                   [leadsg]-delivers exactly res, in order, at the fragment's exit, and when res
+                                   is exhausted backtracks into T with S, C, M restored.
+     compile_correct_top_partial   whole program  Lazybranch Lend ; [root] ; Lend: Stop  with root =
+                                   NCapture o 0 (-1) body: from the initial state the machine reaches the final
+                                   Stop in a state whose position and capture arrays are those of
+                                   attempt e fuel root t0 (group 0 set), or, when attempt = None, with empty
+                                   captures and empty stacks (group 0 unset).
+     cc_demo, cc_demo2, cc_demo3   concrete instances (vm_compute), cross-checked against VM.exec_at.
+
+   THE SET [supported] (CompileDefs.supported) = every constructor of Tree.node, with these side conditions:
+     NCapture _ g u r     u = -1                      (balancing groups are outside the C01 fragment)
+     NAlternate _ l       l <> []                     (the writer emits no code for an empty alternation while
+                                                       the reference semantics fails; the parser never builds one)
+     NLoop _ _ m n r      0 <= m, n <= MaxInt32
+     NCharLoop ... m n    0 <= m <= n <= MaxInt32     (for m > n the writer still emits X-rep m: code and
+                                                       semantics differ; the parser never builds one)
+   Stage 1: NEmpty NNothing NBump NGroup NAnchor (10) NChar (One/Notone/Set, both directions) NConcat
+            NAlternate NCapture;  stage 2: NLoop (Branchmark, Lazybranchmark, Branchcount, Lazybranchcount);
+   stage 3: NCharLoop (rep + loop/lazy/loopatomic), NMulti;  stage 4: NAtomic NPosLook NNegLook NRef
+            NBackRefCond NExprCond.
+   Files: VMUOps2..7 (opcode lemmas, root-slot lifting), CompileBase (leadsg), CompileDefs, CompileStage1,
+   CompileLoop, CharLoopFacts, CompileCharLoop, CompileMulti, CompileStage4, CapFacts, CompileCond, CompileRef. *)
 From Verif Require Import Base.Prelude Model.Tree Model.Spec Model.VM Model.Writer Gen.RunnerGen
   Proofs.SpecProofs Proofs.SpecBoundsProofs Proofs.MaskProofs
   Proofs.VMU Proofs.VMUOps Proofs.VMUOps2 Proofs.VMUOps6 Proofs.VMUOps3 Proofs.CompileBase
@@ -202,5 +230,81 @@ Proof.
     destruct (compile_correct_top_partial cc_demo_env cc_demo_prog Htc ltac:(cbv; congruence) 20 0 cc_demo_body 0 (Some cc_demo_result)
                 eq_refl eq_refl eq_refl Hg Hp ltac:(cbv; congruence) ltac:(vm_compute; reflexivity)) as [_ (t & T & S & C & M & H1 & H2 & H3 & H4 & H5)].
     exists t, T, S, C, M. exact (conj H1 (conj H2 (conj H3 (conj H4 H5)))).
+  - eexists. split; [vm_compute; reflexivity|]. repeat split.
+Qed.
+
+(* ---------- two richer instances ----------
+   (1)  on "abaaac": a greedy Branchmark loop around capture 1 whose body is the alternation of the
+        literal string "ab" and the lazy single-character loop a{1,2}?; then a back-reference to 1,
+        a positive lookahead for c, a negative lookahead for d, an atomic greedy c-loop, and a
+        back-reference conditional (group 1 set: end anchor, else z).  Group 1 is captured three times.
+   (2)  on "ababaa": a lazy counted loop {2,3}? around capture 1 (a set), an expression conditional,
+        a right-to-left lookbehind for "ab", a greedy counted loop {2,} (Branchcount with n = INF),
+        and the end anchor. *)
+Definition cc_demo_env2 (t : list Z) : env :=
+  {| txt := t; tstart := 0; ecma := false; endz_strict := false;
+     set_in := fun _ x => (97 <=? x) && (x <=? 98); lower := fun x => x; is_word := fun _ => true; is_eword := fun _ => true |}.
+Definition cc_demo_body2 : node :=
+  NConcat 0 [ NLoop false 0 0 INF (NCapture 0 1 (-1) (NAlternate 0 [NMulti 0 [97;98]; NCharLoop COne LLazy 0 97 1 2]));
+              NRef 0 1;
+              NPosLook 0 (NChar COne 0 99);
+              NNegLook 0 (NChar COne 0 100);
+              NAtomic (NCharLoop COne LGreedy 0 99 0 INF);
+              NBackRefCond 0 1 (NAnchor AEndZ) (Some (NChar COne 0 122)) ].
+Definition cc_demo_body3 : node :=
+  NConcat 0 [ NLoop true 0 2 3 (NCapture 0 1 (-1) (NChar CSet 0 0));
+              NExprCond 0 (NChar COne 0 98) (NChar COne 0 98) (Some (NChar COne 0 97));
+              NPosLook 64 (NConcat 64 [NChar COne 64 98; NChar COne 64 97]);
+              NLoop false 0 2 INF (NChar CNotone 0 120);
+              NAnchor AEnd ].
+Definition cc_demo_prog_of (root : node) : program :=
+  {| codes := fst (compile cfg0 root); strings := snd (compile cfg0 root);
+     trackcount := track_count (fst (compile cfg0 root)); capsize := 2 |}.
+
+Example cc_demo2 :
+  let e := cc_demo_env2 [97;98;97;97;97;99] in
+  let root := NCapture 0 0 (-1) cc_demo_body2 in
+  let p := cc_demo_prog_of root in
+  let q := {| pos := 6; caps := [(1, [(3, 1); (2, 1); (0, 2)]); (0, [(0, 6)])] |} in
+  supported root = true /\
+  attempt e 40 root 0 = Ok (Some q) /\
+  (exists t T S C M,
+     VMU.usteps e p (VMU.mk 0 0 0 [] [] [] [[]; []]) (VMU.mk 59 0 t T S C M) /\
+     VMU.ustep e p (VMU.mk 59 0 t T S C M) = Ok (Done (VMU.mk 59 0 t T S C M)) /\
+     t = 6 /\ caps_rel p (caps q) M) /\
+  (exists s', exec_at e p (-1) 5 0 = Ok s' /\ pc s' = 59 /\ tp s' = 6 /\ mcaps s' = [[0; 6]; [0; 2; 2; 1; 3; 1]]).
+Proof.
+  intros e root p q. split; [reflexivity|]. split; [vm_compute; reflexivity|]. split.
+  - assert (Htc : 0 <= trackcount p) by (vm_compute; congruence).
+    assert (Hg : groups_ok (capsize p) root) by (cbn; repeat split; try exact I; cbv; congruence).
+    assert (Hp : 0 <= 0 <= tlen e) by (cbv; split; congruence).
+    destruct (compile_correct_top_partial e p Htc ltac:(cbv; congruence) 40 0 cc_demo_body2 0 (Some q)
+                eq_refl eq_refl eq_refl Hg Hp ltac:(cbv; congruence) ltac:(vm_compute; reflexivity))
+      as [_ (t & T & S & C & M & H1 & H2 & H3 & H4 & H5)].
+    exists t, T, S, C, M. exact (conj H1 (conj H2 (conj H3 H4))).
+  - eexists. split; [vm_compute; reflexivity|]. repeat split.
+Qed.
+
+Example cc_demo3 :
+  let e := cc_demo_env2 [97;98;97;98;97;97] in
+  let root := NCapture 0 0 (-1) cc_demo_body3 in
+  let p := cc_demo_prog_of root in
+  let q := {| pos := 6; caps := [(1, [(2, 1); (1, 1); (0, 1)]); (0, [(0, 6)])] |} in
+  supported root = true /\
+  attempt e 40 root 0 = Ok (Some q) /\
+  (exists t T S C M,
+     VMU.usteps e p (VMU.mk 0 0 0 [] [] [] [[]; []]) (VMU.mk 49 0 t T S C M) /\
+     VMU.ustep e p (VMU.mk 49 0 t T S C M) = Ok (Done (VMU.mk 49 0 t T S C M)) /\
+     t = 6 /\ caps_rel p (caps q) M) /\
+  (exists s', exec_at e p (-1) 5 0 = Ok s' /\ pc s' = 49 /\ tp s' = 6 /\ mcaps s' = [[0; 6]; [0; 1; 1; 1; 2; 1]]).
+Proof.
+  intros e root p q. split; [reflexivity|]. split; [vm_compute; reflexivity|]. split.
+  - assert (Htc : 0 <= trackcount p) by (vm_compute; congruence).
+    assert (Hg : groups_ok (capsize p) root) by (cbn; repeat split; try exact I; cbv; congruence).
+    assert (Hp : 0 <= 0 <= tlen e) by (cbv; split; congruence).
+    destruct (compile_correct_top_partial e p Htc ltac:(cbv; congruence) 40 0 cc_demo_body3 0 (Some q)
+                eq_refl eq_refl eq_refl Hg Hp ltac:(cbv; congruence) ltac:(vm_compute; reflexivity))
+      as [_ (t & T & S & C & M & H1 & H2 & H3 & H4 & H5)].
+    exists t, T, S, C, M. exact (conj H1 (conj H2 (conj H3 H4))).
   - eexists. split; [vm_compute; reflexivity|]. repeat split.
 Qed.
